@@ -601,10 +601,62 @@ def gen_simultaneous(tier):
     return cases
 
 
+# ---------------------------------------------------------------------------
+# ONE binder object whose value is a container literal reading the scope, evaluated under different bindings in one call
+
+BINDER_VALUES = {
+    'plain': (lambda: S.x, lambda x, t: x),
+    'list': (lambda: [S.x], lambda x, t: [x]),
+    'list-with-target': (lambda: [S.x, T['n']], lambda x, t: [x, t['n']]),
+    'dict': (lambda: {'v': S.x, 'k': 'lit'}, lambda x, t: {'v': x, 'k': 'lit'}),
+    'tuple': (lambda: (S.x, 0), lambda x, t: (x, 0)),
+    'nested': (lambda: {'l': [S.x, [S.x]]}, lambda x, t: {'l': [x, [x]]}),
+    'set': (lambda: {S.x}, lambda x, t: {x}),
+}
+BINDER_TEMPLATES = ['siblings', 'rebinding', 'list-items', 'coalesce-retry', 'two-binders']
+
+
+def run_binder_reuse(case):
+    vkind, template, shared = case
+    mk, model = BINDER_VALUES[vkind]
+    one = S(seen=mk())
+    b = (lambda: one) if shared else (lambda: S(seen=mk()))
+    t = {'n': 7}
+    if template == 'siblings':
+        spec = {'a': (S(x=Val(1)), b(), S.seen), 'b': (S(x=Val(2)), b(), S.seen)}
+        want = {'a': model(1, t), 'b': model(2, t)}
+    elif template == 'rebinding':
+        spec = (S(x=Val(1)), b(), S(first=S.seen), S(x=Val(2)), b(), {'first': S.first, 'second': S.seen})
+        want = {'first': model(1, t), 'second': model(2, t)}
+    elif template == 'list-items':
+        t = [{'n': 1}, {'n': 2}, {'n': 1}]
+        spec = [(S(x=T['n']), b(), S.seen)]
+        want = [model(1, t[0]), model(2, t[1]), model(1, t[2])]
+    elif template == 'coalesce-retry':
+        spec = Coalesce((S(x=Val(1)), b(), 'zz'), (S(x=Val(2)), b(), S.seen))
+        want = model(2, t)
+    else:
+        spec = (S(x=Val(1)), b(), S(x=S.seen), b(), S.seen)          # the second evaluation reads the first one's result
+        want = model(model(1, t), t) if vkind != 'set' else None
+    try:
+        got = glom(t, spec)
+    except Exception as e:
+        got = e
+    if vkind == 'set' and template == 'two-binders':
+        return R(None, 'unhashable', nontrivial=False)
+    if isinstance(got, Exception) or got != want:
+        return R({'expected': repr(want), 'observed': repr(got), 'value': vkind, 'template': template, 'one_binder_object': shared}, 'binder')
+    return R(None, template, nontrivial=True, steps=1, tags={vkind, template, 'shared' if shared else 'fresh'})
+
+
 def subs(tier, only=None):
     from ..engine import fast_tracebacks
     fast_tracebacks()
     out = [
+        Sub('binder-reuse', [[v, t, sh] for v in BINDER_VALUES for t in BINDER_TEMPLATES for sh in (True, False)], run_binder_reuse,
+            rule='case = (binder value: S.x alone or inside a list / dict / tuple / set literal, composite in which the binder is evaluated twice under '
+                 'different bindings of x - sibling dict values, re-binding in one chain, list items, a retried Coalesce branch, feeding its own result; '
+                 'one binder object or separate equal ones)', min_nontrivial=60, min_outcomes=5, required_tags=['list', 'dict', 'siblings', 'shared']),
         Sub('entry-points', gen_entries(tier), run_entry,
             rule='case = history of calls on ONE Spec object (Spec.glom(t, scope=) / glom(t, spec, scope=), four call scopes, four Spec(scope=) '
                  'mappings, reader with and without in-call binders) and on one Iter().first(key) spec; every call must see exactly its own '
